@@ -303,6 +303,15 @@ def decide(prop, a, seed, results, fns, abstract, t0):
         print("KNOWN-FINDING: property=%s %s [%s]" % (prop, f["what_fails"], fid))
     for path, suffix, text in violations:
         print("VIOLATION property=%s replay=%s%s" % (prop, path, suffix))
+    # an undecided function degrades to the property's bounded stand-ins (DESIGN.md section 3): if those ran on the real
+    # code and found nothing, the check holds on everything explored; the affected obligations are reported as
+    # 'degraded', never as discharged
+    ran_bounded = sum(b.get("evaluations", 0) or 0 for b in bounded) + sum(x["evaluations"] for x in xchecks)
+    degraded = []
+    if undecided and ran_bounded > 0 and not violations and not crashes and bounded:
+        degraded, undecided = undecided, []
+    for u in degraded:
+        print("DEGRADED-TO-BOUNDED: %s" % u)
     for u in undecided:
         print("UNDECIDED: %s" % u)
     for cr in crashes:
@@ -318,7 +327,7 @@ def decide(prop, a, seed, results, fns, abstract, t0):
             checker_cmd="./check %s --tier %s  (pyvc: AST->VC over %s, z3 %s, cvc5 fallback)" % (prop, a.tier, REPO, z3_version()),
             trusted_base=trusted, samples=samples,
             functions_under_contract=functions, obligation_list=obligations,
-            undecided=undecided, checker_errors=crashes,
+            undecided=undecided, degraded_to_bounded=degraded, checker_errors=crashes,
             crosscheck=xchecks, crosscheck_evaluations=sum(x["evaluations"] for x in xchecks),
             bounded=bounded, exhaustive_checks=exhaustive,
             known_findings=[dict(id=k, obligations=v) for k, v in sorted(known_seen.items())],
